@@ -58,10 +58,17 @@ def shrink_sched(obj):
 
 def all_interleavings(progs_steps):
     """all interleavings of threads with the given step counts (bounded exhaustive)"""
-    seq = []
-    for t, n in enumerate(progs_steps):
-        seq += [t] * n
-    return set(itertools.permutations(seq))
+    out = []
+    def go(rem, acc):
+        if all(r == 0 for r in rem):
+            out.append(tuple(acc)); return
+        for t, r in enumerate(rem):
+            if r > 0:
+                rem[t] -= 1; acc.append(t)
+                go(rem, acc)
+                acc.pop(); rem[t] += 1
+    go(list(progs_steps), [])
+    return out
 
 
 import re as _re
@@ -73,7 +80,20 @@ def normalize(kvs):
         if isinstance(v, str):
             v = _U64.sub('u64:*', v)
             if k == 'hist' and v != '_':
-                snaps = v.split(';')
+                # identities are compared per key, as ranks in order of first appearance
+                ranks = {}
+                snaps = []
+                for snap in v.split(';'):
+                    if snap == '-':
+                        snaps.append(snap); continue
+                    parts = []
+                    for kv in snap.split('.'):
+                        key, ident = kv.split(':')
+                        r = ranks.setdefault(key, {})
+                        if ident not in r:
+                            r[ident] = len(r)
+                        parts.append('%s:%d' % (key, r[ident]))
+                    snaps.append('.'.join(parts))
                 ded = [x for i, x in enumerate(snaps) if i == 0 or x != snaps[i - 1]]
                 v = ';'.join(ded)
         out[k] = v
